@@ -76,7 +76,7 @@ theorem edge_sem {L : Nat} {E : Enc L} {lh lh' : LHeap} {full : Nat → Key} (ho
     (hx : lh'[x]? = some xh) (hxk : xh.key = k0 :: xt)
     (hkeep : ∀ (y : Nat) (ny : LN), lh[y]? = some ny → ∃ ny' : LN, lh'[y]? = some ny' ∧ ny'.key = ny.key)
     (hunt : ∀ z, z < lh.length → z ≠ cur → ¬ (full c <+: full z) → lh'[z]? = lh[z]?)
-    (E : ∀ s : Key, s.length = (k0 :: kt).length → ∀ i i',
+    (EH : ∀ s : Key, s.length = (k0 :: kt).length → ∀ i i',
       entR (desc1 lh' s (.at i' x (lcp xh.key s))) =
         if s = k0 :: kt then putEnt d data (entR (desc1 lh s (.at i c (lcp ch.key s))))
         else entR (desc1 lh s (.at i c (lcp ch.key s)))) :
@@ -110,7 +110,7 @@ theorem edge_sem {L : Nat} {E : Enc L} {lh lh' : LHeap} {full : Nat → Key} (ho
   by_cases e : s0 = k0
   · obtain ⟨a1, a2⟩ := A e
     rw [a1, a2]
-    exact E (s0 :: st) hs _ _
+    exact EH (s0 :: st) hs _ _
   · have hne : ¬ (s0 :: st = k0 :: kt) := by
       intro h; cases h; exact e rfl
     rw [if_neg hne, B e]
@@ -187,7 +187,21 @@ theorem fin_mid {L : Nat} {E : Enc L} {lh : LHeap} {full : Nat → Key} {P : Nat
       have : 0 < nc.key.length := List.length_pos_iff.mpr g2
       omega
     refine ⟨⟨⟨?_, ?_, ?_, ?_, ?_⟩, (by simpa using hlen), m.fsame, ?_, ?_⟩, (fun t h => by cases h), ⟨_, hsetc, rfl⟩, fun z _ hz => hset z hz⟩
-    rotate_left 2
+    · intro id n c hn hc
+      by_cases e : id = cur
+      · subst e
+        rw [hsetc] at hn; cases hn
+        obtain ⟨nc, g1, g2, g3, _⟩ := KC c hc
+        obtain ⟨nc', q1, q2⟩ := hkey c nc g1
+        exact ⟨nc', q1, by rw [q2]; exact g2, by rw [g3, hfc, q2]⟩
+      · rw [hset id e] at hn
+        obtain ⟨nc, g1, g2, g3⟩ := m.ok.kid id n c hn hc
+        obtain ⟨nc', q1, q2⟩ := hkey c nc g1
+        exact ⟨nc', q1, by rw [q2]; exact g2, by rw [g3, q2]⟩
+    · intro id n hn
+      by_cases e : id = cur
+      · subst e; exact m.ok.depth id cn hcur1
+      · rw [hset id e] at hn; exact m.ok.depth id n hn
     · -- sorted
       intro id n hn
       by_cases e : id = cur
@@ -207,28 +221,13 @@ theorem fin_mid {L : Nat} {E : Enc L} {lh : LHeap} {full : Nat → Key} {P : Nat
       · subst e; rw [hsetc] at hn; cases hn
         obtain ⟨nc1, g1, _, _, _, g5⟩ := KC c hc
         rw [hset c (hkidne c hc), g1] at hnc; cases hnc
-        show nc1.dye ≤ cn.dye
+        show nc.dye ≤ cn.dye
         omega
       · rw [hset id e] at hn
         by_cases e2 : c = cur
         · subst e2; rw [hsetc] at hnc; cases hnc
           exact m.ok.mono id n c cn hn hc hcur1
         · rw [hset c e2] at hnc; exact m.ok.mono id n c nc hn hc hnc
-    · intro id n c hn hc
-      by_cases e : id = cur
-      · subst e
-        rw [hsetc] at hn; cases hn
-        obtain ⟨nc, g1, g2, g3, _⟩ := KC c hc
-        obtain ⟨nc', q1, q2⟩ := hkey c nc g1
-        exact ⟨nc', q1, by rw [q2]; exact g2, by rw [g3, hfc, q2]⟩
-      · rw [hset id e] at hn
-        obtain ⟨nc, g1, g2, g3⟩ := m.ok.kid id n c hn hc
-        obtain ⟨nc', q1, q2⟩ := hkey c nc g1
-        exact ⟨nc', q1, by rw [q2]; exact g2, by rw [g3, q2]⟩
-    · intro id n hn
-      by_cases e : id = cur
-      · subst e; exact m.ok.depth id cn hcur1
-      · rw [hset id e] at hn; exact m.ok.depth id n hn
     · intro id n hn
       by_cases e : id = cur
       · subst e
@@ -269,7 +268,20 @@ theorem fin_mid {L : Nat} {E : Enc L} {lh : LHeap} {full : Nat → Key} {P : Nat
       intro x c0 ⟨nx, ct, h1, h2⟩
       exact ⟨nx, ct, by rw [happ x (valid_lt h1)]; exact h1, h2⟩
     refine ⟨⟨⟨?_, ?_, ?_, ?_, ?_⟩, (by simp; omega), ?_, ?_, ?_⟩, ?_, ⟨_, hnewt, rfl⟩, fun z hz _ => happ z hz⟩
-    rotate_left 2
+    · intro id n c hn hc
+      rcases hcls id n hn with ⟨a, b⟩ | ⟨rfl, rfl⟩
+      · obtain ⟨nc, g1, g2, g3⟩ := m.ok.kid id n c b hc
+        have hclt := valid_lt g1
+        exact ⟨nc, by rw [happ c hclt]; exact g1, g2, by rw [hff c hclt, hff id a, g3]⟩
+      · obtain ⟨nc, g1, g2, g3, _⟩ := KC c hc
+        have hclt := valid_lt g1
+        refine ⟨nc, by rw [happ c hclt]; exact g1, g2, ?_⟩
+        simp only [if_true]
+        rw [hff c hclt, g3, hfc]
+    · intro id n hn
+      rcases hcls id n hn with ⟨a, b⟩ | ⟨rfl, rfl⟩
+      · rw [hff id a]; exact m.ok.depth id n b
+      · simp only [if_true]; exact m.ok.depth cur cn hcur1
     · -- sorted
       intro id n hn
       rcases hcls id n hn with ⟨a, b⟩ | ⟨rfl, rfl⟩
@@ -285,24 +297,10 @@ theorem fin_mid {L : Nat} {E : Enc L} {lh : LHeap} {full : Nat → Key} {P : Nat
       rcases hcls id n hn with ⟨a, b⟩ | ⟨rfl, rfl⟩
       · obtain ⟨nc1, g1, _, _⟩ := m.ok.kid id n c b hc
         rw [happ c (valid_lt g1), g1] at hnc; cases hnc
-        exact m.ok.mono id n c nc1 b hc g1
+        exact m.ok.mono id n c nc b hc g1
       · obtain ⟨nc1, g1, _, _, _, g5⟩ := KC c hc
         rw [happ c (valid_lt g1), g1] at hnc; cases hnc
         exact g5
-    · intro id n c hn hc
-      rcases hcls id n hn with ⟨a, b⟩ | ⟨rfl, rfl⟩
-      · obtain ⟨nc, g1, g2, g3⟩ := m.ok.kid id n c b hc
-        have hclt := valid_lt g1
-        exact ⟨nc, by rw [happ c hclt]; exact g1, g2, by rw [hff c hclt, hff id a, g3]⟩
-      · obtain ⟨nc, g1, g2, g3, _⟩ := KC c hc
-        have hclt := valid_lt g1
-        refine ⟨nc, by rw [happ c hclt]; exact g1, g2, ?_⟩
-        simp only [if_true]
-        rw [hff c hclt, g3, hfc]
-    · intro id n hn
-      rcases hcls id n hn with ⟨a, b⟩ | ⟨rfl, rfl⟩
-      · rw [hff id a]; exact m.ok.depth id n b
-      · simp only [if_true]; exact m.ok.depth cur cn hcur1
     · intro id hid
       rw [hff id (by omega)]; exact m.fsame id hid
     · intro id n hn
@@ -330,17 +328,23 @@ theorem mid_append {L : Nat} {E : Enc L} {lh : LHeap} {full : Nat → Key} (hok 
     (news : List LN) (full1 : Nat → Key) (hf : ∀ id, id < lh.length → full1 id = full id)
     (hnew : ∀ id nn, lh.length ≤ id → (lh ++ news)[id]? = some nn →
       (full1 id).length ≤ L ∧ (nn.dye = d ∨ ∃ p np, P p ∧ lh[p]? = some np ∧ nn.dye = np.dye) ∧
-      ∀ c ∈ nn.kids, ∃ nc, (lh ++ news)[c]? = some nc ∧ nc.key ≠ [] ∧ full1 c = full1 id ++ nc.key ∧ (c < lh.length → P c)) :
+      SortedKids (lh ++ news) nn.kids ∧
+      (nn.terminal = true → (full1 id).length = L ∧ ∃ dd, nn.data = some dd ∧ E.enc dd.addr = full1 id) ∧
+      ∀ c ∈ nn.kids, ∃ nc, (lh ++ news)[c]? = some nc ∧ nc.key ≠ [] ∧ full1 c = full1 id ++ nc.key ∧ (c < lh.length → P c) ∧
+        nc.dye ≤ nn.dye) :
     Mid E lh full P below d (lh ++ news) full1 := by
   have hold : ∀ z, z < lh.length → (lh ++ news)[z]? = lh[z]? := fun z hz => List.getElem?_append_left hz
-  refine ⟨⟨?_, ?_⟩, by simp, hf, ?_, ?_⟩
+  have hheads : ∀ x c0, Hd lh x c0 → Hd (lh ++ news) x c0 := by
+    intro x c0 ⟨nx, ct, h1, h2⟩
+    exact ⟨nx, ct, by rw [hold x (valid_lt h1)]; exact h1, h2⟩
+  refine ⟨⟨?_, ?_, ?_, ?_, ?_⟩, by simp, hf, ?_, ?_⟩
   · intro id n c hn hc
     by_cases a : id < lh.length
     · rw [hold id a] at hn
       obtain ⟨nc, g1, g2, g3⟩ := hok.kid id n c hn hc
       have hclt := valid_lt g1
       exact ⟨nc, by rw [hold c hclt]; exact g1, g2, by rw [hf c hclt, hf id a, g3]⟩
-    · obtain ⟨_, _, h3⟩ := hnew id n (by omega) hn
+    · obtain ⟨_, _, _, _, h3⟩ := hnew id n (by omega) hn
       obtain ⟨nc, g1, g2, g3, _⟩ := h3 c hc
       exact ⟨nc, g1, g2, g3⟩
   · intro id n hn
@@ -348,12 +352,30 @@ theorem mid_append {L : Nat} {E : Enc L} {lh : LHeap} {full : Nat → Key} (hok 
     · rw [hold id a] at hn; rw [hf id a]; exact hok.depth id n hn
     · exact (hnew id n (by omega) hn).1
   · intro id n hn
+    by_cases a : id < lh.length
+    · rw [hold id a] at hn
+      exact (hok.sorted id n hn).transfer (fun x _ c0 h => hheads x c0 h)
+    · exact (hnew id n (by omega) hn).2.2.1
+  · intro id n hn ht
+    by_cases a : id < lh.length
+    · rw [hold id a] at hn; rw [hf id a]; exact hok.term id n hn ht
+    · exact (hnew id n (by omega) hn).2.2.2.1 ht
+  · intro id n c nc hn hc hnc
+    by_cases a : id < lh.length
+    · rw [hold id a] at hn
+      obtain ⟨nc1, g1, _, _⟩ := hok.kid id n c hn hc
+      rw [hold c (valid_lt g1), g1] at hnc; cases hnc
+      exact hok.mono id n c nc hn hc g1
+    · obtain ⟨nc1, g1, _, _, _, g5⟩ := (hnew id n (by omega) hn).2.2.2.2 c hc
+      rw [g1] at hnc; cases hnc
+      exact g5
+  · intro id n hn
     left; rw [hold id (valid_lt hn)]; exact hn
   · intro id n' hid hn
-    obtain ⟨_, h2, h3⟩ := hnew id n' hid hn
+    obtain ⟨_, h2, _, _, h3⟩ := hnew id n' hid hn
     refine ⟨h2, ?_⟩
     intro c hc hlt
-    obtain ⟨_, _, _, _, g4⟩ := h3 c hc
+    obtain ⟨_, _, _, _, g4, _⟩ := h3 c hc
     exact g4 hlt
 
 theorem replaceL_fin {lh1 : LHeap} {cur i x d : Nat} {cn : LN} (hcur : lh1[cur]? = some cn) (hi : i < cn.kids.length) :
@@ -366,7 +388,7 @@ theorem replaceL_fin {lh1 : LHeap} {cur i x d : Nat} {cn : LN} (hcur : lh1[cur]?
 theorem Mid.toPost {L : Nat} {E : Enc L} {lh : LHeap} {full : Nat → Key} {P : Nat → Prop} {cur : Nat} {key : Key} {data : Option Data}
     {d : Nat} {lh' : LHeap} {res : Option Nat} {full' : Nat → Key} {cn : LN} (hcur : lh[cur]? = some cn)
     (m : Mid E lh full P (full cur) d lh' full')
-    (hroot : ∀ t, res = some t → lh.length ≤ t ∧ ∃ nt, lh'[t]? = some nt ∧ nt.key = cn.key ∧ full' t = full cur)
+    (hroot : ∀ t, res = some t → lh.length ≤ t ∧ ∃ nt, lh'[t]? = some nt ∧ nt.key = cn.key ∧ full' t = full cur ∧ nt.dye = d)
     (hsem : ∀ s : Key, s.length = key.length →
       entR (look lh' (res.getD cur) s) = if s = key then putEnt d data (entR (look lh cur s)) else entR (look lh cur s)) :
     PutPost E lh full P cur key data d lh' res full' :=
@@ -385,13 +407,16 @@ theorem get_app_new2 {α : Type} (lh : List α) (a b c : α) (rest : List α) :
 /-- old children of `cur` are admissible children of the new root -/
 theorem KC_old {L : Nat} {E : Enc L} {lh lh1 : LHeap} {full full1 : Nat → Key} {P : Nat → Prop} (hok : LOk E lh full)
     (hclosed : ∀ (id : Nat) (n : LN) (c : Nat), P id → lh[id]? = some n → c ∈ n.kids → P c)
+    {d : Nat} (hbound : ∀ (id : Nat) (n : LN), P id → lh[id]? = some n → n.dye ≤ d)
     {cur : Nat} {cn : LN} (hcur : lh[cur]? = some cn) (hP : P cur)
-    (hkeep : ∀ (y : Nat) (ny : LN), lh[y]? = some ny → ∃ ny' : LN, lh1[y]? = some ny' ∧ ny'.key = ny.key)
+    (hkeep : ∀ (y : Nat) (ny : LN), lh[y]? = some ny → ∃ ny' : LN, lh1[y]? = some ny' ∧ ny'.key = ny.key ∧ ny'.dye = ny.dye)
     (hf : ∀ id, id < lh.length → full1 id = full id) {c : Nat} (hc : c ∈ cn.kids) :
-    ∃ nc, lh1[c]? = some nc ∧ nc.key ≠ [] ∧ full1 c = full cur ++ nc.key ∧ (c < lh.length → P c) := by
+    ∃ nc, lh1[c]? = some nc ∧ nc.key ≠ [] ∧ full1 c = full cur ++ nc.key ∧ (c < lh.length → P c) ∧ nc.dye ≤ d := by
   obtain ⟨nc, g1, g2, g3⟩ := hok.kid cur cn c hcur hc
-  obtain ⟨nc', q1, q2⟩ := hkeep c nc g1
-  exact ⟨nc', q1, by rw [q2]; exact g2, by rw [hf c (valid_lt g1), g3, q2], fun _ => hclosed cur cn c hP hcur hc⟩
+  obtain ⟨nc', q1, q2, q3⟩ := hkeep c nc g1
+  have hPc := hclosed cur cn c hP hcur hc
+  exact ⟨nc', q1, by rw [q2]; exact g2, by rw [hf c (valid_lt g1), g3, q2], fun _ => hPc,
+    by rw [q3]; exact hbound c nc hPc g1⟩
 
 /-- the branches "no child shares a symbol with the key": a new leaf among the children of `cur` / of its clone -/
 theorem put_leaf_post {L : Nat} {E : Enc L} {lh : LHeap} {full : Nat → Key} {P : Nat → Prop} (hok : LOk E lh full)
@@ -400,7 +425,9 @@ theorem put_leaf_post {L : Nat} {E : Enc L} {lh : LHeap} {full : Nat → Key} {P
     {k0 : Nat} {kt : Key} {pre post : List Nat} (hkids : cn.kids = pre ++ post)
     (hpre : ∀ x ∈ pre, HdLt lh k0 x)
     (hpost : post = [] ∨ ∃ c ch c0 ct rest, post = c :: rest ∧ lh[c]? = some ch ∧ ch.key = c0 :: ct ∧ k0 < c0)
-    (hlen : (full cur).length + (k0 :: kt).length = L) (data : Option Data) (d : Nat) :
+    (hlen : (full cur).length + (k0 :: kt).length = L) (data : Option Data) (d : Nat)
+    (hbound : ∀ (id : Nat) (n : LN), P id → lh[id]? = some n → n.dye ≤ d)
+    (hdata : ∃ dd, data = some dd ∧ E.enc dd.addr = full cur ++ k0 :: kt) :
     ∃ full', PutPost E lh full P cur (k0 :: kt) data d
       (fin (lh ++ [lleaf (k0 :: kt) d data]) cur cn (pre ++ lh.length :: post) d).1
       (fin (lh ++ [lleaf (k0 :: kt) d data]) cur cn (pre ++ lh.length :: post) d).2 full' := by
@@ -420,17 +447,24 @@ theorem put_leaf_post {L : Nat} {E : Enc L} {lh : LHeap} {full : Nat → Key} {P
       · rw [List.getElem?_eq_none (by simp; omega)] at hnn; cases hnn
     subst this
     rw [hnew1] at hnn; cases hnn
-    refine ⟨?_, Or.inl rfl, ?_⟩
-    · show (if lh.length = lh.length then _ else _ : Key).length ≤ L
-      rw [if_pos rfl, List.length_append]; omega
+    have hfn : full1 lh.length = full cur ++ k0 :: kt := by
+      show (if lh.length = lh.length then _ else _ : Key) = _
+      rw [if_pos rfl]
+    refine ⟨?_, Or.inl rfl, List.Pairwise.nil, ?_, ?_⟩
+    · rw [hfn, List.length_append]; omega
+    · intro _
+      rw [hfn]
+      refine ⟨by rw [List.length_append]; omega, ?_⟩
+      obtain ⟨dd, h1, h2⟩ := hdata
+      exact ⟨dd, h1, h2⟩
     · intro c hc; simp [lleaf] at hc
   have hcur1 : (lh ++ [lleaf (k0 :: kt) d data])[cur]? = some cn := by rw [hold1 cur hcurlt]; exact hcur
   have KC : ∀ c ∈ pre ++ lh.length :: post, ∃ nc, (lh ++ [lleaf (k0 :: kt) d data])[c]? = some nc ∧ nc.key ≠ [] ∧
-      full1 c = full cur ++ nc.key ∧ (c < lh.length → P c) := by
+      full1 c = full cur ++ nc.key ∧ (c < lh.length → P c) ∧ nc.dye ≤ d := by
     intro c hc
     by_cases e : c = lh.length
     · subst e
-      refine ⟨_, hnew1, by simp [lleaf], ?_, fun h => absurd h (Nat.lt_irrefl _)⟩
+      refine ⟨_, hnew1, by simp [lleaf], ?_, fun h => absurd h (Nat.lt_irrefl _), Nat.le_refl _⟩
       show (if lh.length = lh.length then _ else _ : Key) = _
       rw [if_pos rfl]; rfl
     · have hc' : c ∈ cn.kids := by
@@ -439,8 +473,21 @@ theorem put_leaf_post {L : Nat} {E : Enc L} {lh : LHeap} {full : Nat → Key} {P
         · exact Or.inl h
         · exact absurd h e
         · exact Or.inr h
-      exact KC_old hok hclosed hcur hP (fun y ny hy => ⟨ny, by rw [hold1 y (valid_lt hy)]; exact hy, rfl⟩) hf1 hc'
-  obtain ⟨m2, hroot, ⟨rn', hr1, hr2⟩, hrest⟩ := fin_mid m1 hcur hcur1 hP (List.prefix_refl _) _ KC
+      exact KC_old hok hclosed hbound hcur hP (fun y ny hy => ⟨ny, by rw [hold1 y (valid_lt hy)]; exact hy, rfl, rfl⟩) hf1 hc'
+  have hheads1 : ∀ x c0, Hd lh x c0 → Hd (lh ++ [lleaf (k0 :: kt) d data]) x c0 := by
+    intro x c0 ⟨nx, ct, h1, h2⟩
+    exact ⟨nx, ct, by rw [hold1 x (valid_lt h1)]; exact h1, h2⟩
+  have hsorted : SortedKids (lh ++ [lleaf (k0 :: kt) d data]) (pre ++ lh.length :: post) := by
+    have h0 := (hok.sorted cur cn hcur).transfer (lh' := lh ++ [lleaf (k0 :: kt) d data]) (fun x _ c0 h => hheads1 x c0 h)
+    rw [hkids] at h0
+    apply h0.insert ⟨_, kt, hnew1, rfl⟩
+    · intro y hy
+      obtain ⟨c0, g1, g2⟩ := hpre y hy
+      exact ⟨c0, hheads1 y c0 g1, g2⟩
+    · rcases hpost with h | ⟨c, ch, c0, ct, rest, q0, q1, q2, q3⟩
+      · exact Or.inl h
+      · exact Or.inr ⟨c, ch, c0, ct, rest, q0, by rw [hold1 c (valid_lt q1)]; exact q1, q2, q3⟩
+  obtain ⟨m2, hroot, ⟨rn', hr1, hr2⟩, hrest⟩ := fin_mid m1 hcur hcur1 hP (List.prefix_refl _) _ KC hsorted
   refine ⟨_, m2.toPost hcur hroot ?_⟩
   -- semantics
   generalize fin (lh ++ [lleaf (k0 :: kt) d data]) cur cn (pre ++ lh.length :: post) d = fr at *
@@ -480,6 +527,7 @@ theorem put_replace_post {L : Nat} {E : Enc L} {lh lh1 : LHeap} {full full1 : Na
     {d : Nat} {data : Option Data}
     (m1 : Mid E lh full P (full c) d lh1 full1) (hcur1 : lh1[cur]? = some cn)
     (hx1 : lh1[x]? = some xh) (hxk : xh.key = k0 :: xt) (hxf : full1 x = full cur ++ xh.key) (hxnew : lh.length ≤ x)
+    (hbound : ∀ (id : Nat) (n : LN), P id → lh[id]? = some n → n.dye ≤ d) (hxd : xh.dye ≤ d)
     (E1 : ∀ s : Key, s.length = (k0 :: kt).length → ∀ i i',
       entR (desc1 lh1 s (.at i' x (lcp xh.key s))) =
         if s = k0 :: kt then putEnt d data (entR (desc1 lh s (.at i c (lcp ch.key s))))
@@ -491,24 +539,32 @@ theorem put_replace_post {L : Nat} {E : Enc L} {lh lh1 : LHeap} {full full1 : Na
   obtain ⟨nc0, q1, _, hfc⟩ := hok.kid cur cn c hcur hcm
   rw [hc] at q1; cases q1
   have hbelow : full cur <+: full c := by rw [hfc]; exact List.prefix_append _ _
-  have hkeep1 : ∀ (y : Nat) (ny : LN), lh[y]? = some ny → ∃ ny' : LN, lh1[y]? = some ny' ∧ ny'.key = ny.key := by
+  have hkeep1 : ∀ (y : Nat) (ny : LN), lh[y]? = some ny → ∃ ny' : LN, lh1[y]? = some ny' ∧ ny'.key = ny.key ∧ ny'.dye = ny.dye := by
     intro y ny hy
-    obtain ⟨ny', a, b, _⟩ := m1.keepkey y ny hy
-    exact ⟨ny', a, b⟩
+    obtain ⟨ny', a, b, c'⟩ := m1.keepkey y ny hy
+    exact ⟨ny', a, b, congrArg Ent.dye c'⟩
+  have hheads1 : ∀ y c0, Hd lh y c0 → Hd lh1 y c0 := by
+    intro y c0 ⟨ny, ct', h1, h2⟩
+    obtain ⟨ny', a, b, _⟩ := hkeep1 y ny h1
+    exact ⟨ny', ct', a, b.trans h2⟩
+  have hsorted : SortedKids lh1 (pre ++ x :: post) := by
+    have h0 := (hok.sorted cur cn hcur).transfer (lh' := lh1) (fun y _ c0 h => hheads1 y c0 h)
+    rw [hkids] at h0
+    exact h0.replace (hheads1 c k0 ⟨ch, ct, hc, hck⟩) ⟨xh, xt, hx1, hxk⟩
   have KC : ∀ y ∈ pre ++ x :: post, ∃ nc, lh1[y]? = some nc ∧ nc.key ≠ [] ∧
-      full1 y = full cur ++ nc.key ∧ (y < lh.length → P y) := by
+      full1 y = full cur ++ nc.key ∧ (y < lh.length → P y) ∧ nc.dye ≤ d := by
     intro y hy
     by_cases e : y = x
     · subst e
-      exact ⟨xh, hx1, by rw [hxk]; simp, hxf, fun h => by omega⟩
+      exact ⟨xh, hx1, by rw [hxk]; simp, hxf, fun h => by omega, hxd⟩
     · have hy' : y ∈ cn.kids := by
         rw [hkids]; simp only [List.mem_append, List.mem_cons] at hy ⊢
         rcases hy with h | h | h
         · exact Or.inl h
         · exact absurd h e
         · exact Or.inr (Or.inr h)
-      exact KC_old hok hclosed hcur hP hkeep1 m1.fsame hy'
-  obtain ⟨m2, hroot, ⟨rn', hr1, hr2⟩, hrest⟩ := fin_mid m1 hcur hcur1 hP hbelow _ KC
+      exact KC_old hok hclosed hbound hcur hP hkeep1 m1.fsame hy'
+  obtain ⟨m2, hroot, ⟨rn', hr1, hr2⟩, hrest⟩ := fin_mid m1 hcur hcur1 hP hbelow _ KC hsorted
   refine ⟨_, m2.toPost hcur hroot ?_⟩
   generalize fin lh1 cur cn (pre ++ x :: post) d = fr at *
   obtain ⟨lh', res⟩ := fr
@@ -672,9 +728,11 @@ theorem putL_spec {L : Nat} {E : Enc L} {P : Nat → Prop} : ∀ (fuel : Nat) (l
     (data : Option Data) (d : Nat), LOk E lh full →
     (∀ (id : Nat) (n : LN) (c : Nat), P id → lh[id]? = some n → c ∈ n.kids → P c) → P cur →
     (∃ cn, lh[cur]? = some cn) → (full cur).length + key.length = L → key ≠ [] → key.length < fuel →
+    (∀ (id : Nat) (n : LN), P id → lh[id]? = some n → n.dye ≤ d) →
+    (∃ dd, data = some dd ∧ E.enc dd.addr = full cur ++ key) →
     ∃ lh' res full', putL fuel lh cur key data d = some (lh', res) ∧ PutPost E lh full P cur key data d lh' res full'
-  | 0, _, _, _, _, _, _, _, _, _, _, _, _, hf => by omega
-  | f + 1, lh, full, cur, key, data, d, hok, hclosed, hP, ⟨cn, hcur⟩, hlen, hne, hf => by
+  | 0, _, _, _, _, _, _, _, _, _, _, _, _, hf, _, _ => by omega
+  | f + 1, lh, full, cur, key, data, d, hok, hclosed, hP, ⟨cn, hcur⟩, hlen, hne, hf, hbound, hdata => by
     cases key with
     | nil => exact absurd rfl hne
     | cons k0 kt =>
@@ -687,7 +745,7 @@ theorem putL_spec {L : Nat} {E : Enc L} {P : Nat → Prop} : ∀ (fuel : Nat) (l
       simp only
       rw [fin_leaf_eq]
       obtain ⟨full', hp⟩ := put_leaf_post hok hclosed hcur hP (pre := cn.kids) (post := []) (by simp) h (Or.inl rfl)
-        hlen data d
+        hlen data d hbound hdata
       exact ⟨_, _, full', rfl, hp⟩
     | before pre c post ch c0 ct hk hp h1 h2 h3 e =>
       rw [e]
@@ -698,7 +756,7 @@ theorem putL_spec {L : Nat} {E : Enc L} {P : Nat → Prop} : ∀ (fuel : Nat) (l
         rw [hk]; unfold insAt; simp
       rw [hins]
       obtain ⟨full', hpp⟩ := put_leaf_post hok hclosed hcur hP hk hp
-        (Or.inr ⟨c, ch, c0, ct, post, rfl, h1, h2, h3⟩) hlen data d
+        (Or.inr ⟨c, ch, c0, ct, post, rfl, h1, h2, h3⟩) hlen data d hbound hdata
       exact ⟨_, _, full', rfl, hpp⟩
     | hit pre c post ch ct hk hp h1 h2 e =>
       rw [e]
@@ -757,17 +815,26 @@ theorem putL_spec {L : Nat} {E : Enc L} {P : Nat → Prop} : ∀ (fuel : Nat) (l
               rw [hx1] at hnn; cases hnn
               have hfx : full1 lh.length = full c := by
                 show (if lh.length = lh.length then _ else _) = _; rw [if_pos rfl]
-              refine ⟨?_, Or.inl rfl, ?_⟩
+              have hkeyeq : ch.key = k0 :: kt := eq_of_lcp_full (by omega) t2.symm
+              refine ⟨?_, Or.inl rfl, ?_, ?_, ?_⟩
               · rw [hfx]; exact hok.depth c ch h1
+              · exact (hok.sorted c ch h1).transfer (fun y _ c0 ⟨ny, ct', q1, q2⟩ =>
+                  ⟨ny, ct', by rw [List.getElem?_append_left (valid_lt q1)]; exact q1, q2⟩)
+              · intro _
+                rw [hfx, g3]
+                refine ⟨by rw [List.length_append]; omega, ?_⟩
+                obtain ⟨dd, e1, e2⟩ := hdata
+                exact ⟨dd, e1, by rw [e2, hkeyeq]⟩
               · intro y hy
                 obtain ⟨ny, q1, q2, q3⟩ := hok.kid c ch y h1 hy
                 have hylt := valid_lt q1
                 exact ⟨ny, by rw [List.getElem?_append_left hylt]; exact q1, q2, by rw [hfx, hf1 y hylt, q3],
-                  fun _ => hclosed c ch y hPc h1 hy⟩
+                  fun _ => hclosed c ch y hPc h1 hy,
+                  Nat.le_trans (hok.mono c ch y ny h1 hy q1) (hbound c ch hPc h1)⟩
             have hxf : full1 lh.length = full cur ++ ({ ch with dye := d, data := data, terminal := true } : LN).key := by
               show (if lh.length = lh.length then _ else _) = _; rw [if_pos rfl, g3]
             obtain ⟨full', hpp⟩ := put_replace_post (kt := kt) (data := data) hok hclosed hcur hP hk hp h1 h2 m1 hcur1 hx1 h2 hxf
-              (Nat.le_refl _) (fun s hs i i' => E_dup h1 hx1 t2 (by omega) t3 s hs i i')
+              (Nat.le_refl _) hbound (Nat.le_refl _) (fun s hs i i' => E_dup h1 hx1 t2 (by omega) t3 s hs i i')
             exact ⟨_, _, full', rfl, hpp⟩
         · rw [if_neg t2]
           have t3 : (k0 :: kt).length > ch.key.length := by omega
@@ -779,7 +846,15 @@ theorem putL_spec {L : Nat} {E : Enc L} {P : Nat → Prop} : ∀ (fuel : Nat) (l
             ⟨ch, h1⟩ (by rw [g3, List.length_append, List.length_drop]; omega)
             (by intro h0; have := congrArg List.length h0; rw [List.length_drop] at this
                 simp only [List.length_nil] at this; omega)
-            (by rw [List.length_drop]; omega)
+            (by rw [List.length_drop]; omega) hbound
+            (by
+              have hpre : ch.key = (k0 :: kt).take ch.key.length := lcp_eq_left hj
+              obtain ⟨dd, e1, e2⟩ := hdata
+              refine ⟨dd, e1, ?_⟩
+              rw [e2, g3, List.append_assoc]
+              congr 1
+              conv => lhs; rw [← List.take_append_drop ch.key.length (k0 :: kt)]
+              rw [← hpre])
           rw [p1]
           cases r1 with
           | none =>
@@ -794,11 +869,11 @@ theorem putL_spec {L : Nat} {E : Enc L} {P : Nat → Prop} : ∀ (fuel : Nat) (l
               · exact h
               · exact absurd h hcurnot
             rw [replaceL_fin hcur1 hi, hset]
-            obtain ⟨hxnew, n0, xh, q1, hx1, hxk, hxf⟩ := p2.root x rfl
+            obtain ⟨hxnew, n0, xh, q1, hx1, hxk, hxf, hxd⟩ := p2.root x rfl
             rw [h1] at q1; cases q1
             have m1 : Mid E lh full P (full c) d lh1 full1 := ⟨p2.ok, p2.len, p2.fsame, p2.old, p2.new⟩
             obtain ⟨full', hpp⟩ := put_replace_post (kt := kt) (data := data) hok hclosed hcur hP hk hp h1 h2 m1 hcur1 hx1
-              (hxk.trans h2) (by rw [hxf, g3, hxk]) hxnew
+              (hxk.trans h2) (by rw [hxf, g3, hxk]) hxnew hbound (by omega)
               (fun s hs i i' => E_rec h1 hx1 hxk t3 hj p2.sem s hs i i')
             exact ⟨_, _, full', rfl, hpp⟩
       · -- split
@@ -857,23 +932,49 @@ theorem putL_spec {L : Nat} {E : Enc L} {P : Nat → Prop} : ∀ (fuel : Nat) (l
             by_cases e : id < lh.length + 3
             · omega
             · rw [List.getElem?_eq_none (by omega)] at hnn; cases hnn
+          have hheads1 : ∀ y c0, Hd lh y c0 → Hd lh1 y c0 := by
+            intro y c0 ⟨ny, ct', q1, q2⟩
+            exact ⟨ny, ct', by rw [hlh1 y (valid_lt q1)]; exact q1, q2⟩
           rcases hcases with rfl | rfl | rfl
           · rw [hcN] at hnn; cases hnn
-            refine ⟨by rw [hfN]; exact hok.depth c ch h1, Or.inr ⟨c, ch, hPc, h1, rfl⟩, ?_⟩
+            refine ⟨by rw [hfN]; exact hok.depth c ch h1, Or.inr ⟨c, ch, hPc, h1, rfl⟩,
+              (hok.sorted c ch h1).transfer (fun y _ c0 h => hheads1 y c0 h), ?_, ?_⟩
+            · intro ht; rw [hfN]; exact hok.term c ch h1 ht
             intro y hy
             have hy' : y ∈ ch.kids := hy
             obtain ⟨ny, q1, q2, q3⟩ := hok.kid c ch y h1 hy'
             have hylt := valid_lt q1
             exact ⟨ny, by rw [hlh1 y hylt]; exact q1, q2, by rw [hfN, hf1 y hylt, q3],
-              fun _ => hclosed c ch y hPc h1 hy'⟩
+              fun _ => hclosed c ch y hPc h1 hy', hok.mono c ch y ny h1 hy' q1⟩
           · rw [hlf] at hnn; cases hnn
-            refine ⟨by rw [hfL, List.length_append]; omega, Or.inl rfl, ?_⟩
+            refine ⟨by rw [hfL, List.length_append]; omega, Or.inl rfl, List.Pairwise.nil, ?_, ?_⟩
+            · intro _
+              rw [hfL]
+              refine ⟨by rw [List.length_append]; omega, ?_⟩
+              obtain ⟨dd, e1, e2⟩ := hdata
+              exact ⟨dd, e1, e2⟩
             intro y hy; simp [lleaf] at hy
           · rw [hTC] at hnn; cases hnn
-            refine ⟨by rw [hfT, List.length_append, List.length_take]; omega, Or.inl rfl, ?_⟩
+            have hsortk : SortedKids lh1 tk := by
+              have hN : Hd lh1 lh.length b := ⟨_, cbt, hcN, eb⟩
+              have hLf : Hd lh1 (lh.length + 1) a := ⟨_, kat, hlf, ea⟩
+              have htk2 := htk
+              rw [ea, eb] at htk2
+              simp only [two, Option.some.injEq] at htk2
+              rw [← htk2]
+              unfold SortedKids
+              by_cases e : a < b
+              · rw [if_pos e]
+                exact List.pairwise_cons.mpr ⟨fun y hy => by
+                  rw [List.mem_singleton] at hy; subst hy; exact ⟨a, b, hLf, hN, e⟩, List.pairwise_singleton _ _⟩
+              · rw [if_neg e]
+                exact List.pairwise_cons.mpr ⟨fun y hy => by
+                  rw [List.mem_singleton] at hy; subst hy; exact ⟨b, a, hN, hLf, by omega⟩, List.pairwise_singleton _ _⟩
+            refine ⟨by rw [hfT, List.length_append, List.length_take]; omega, Or.inl rfl, hsortk,
+              (fun ht => by cases ht), ?_⟩
             intro y hy
             rcases htkmem y hy with rfl | rfl
-            · refine ⟨_, hcN, ?_, ?_, fun h => absurd h (Nat.lt_irrefl _)⟩
+            · refine ⟨_, hcN, ?_, ?_, fun h => absurd h (Nat.lt_irrefl _), hbound c ch hPc h1⟩
               · show ch.key.drop j ≠ []
                 intro h0
                 have := congrArg List.length h0
@@ -882,7 +983,7 @@ theorem putL_spec {L : Nat} {E : Enc L} {P : Nat → Prop} : ∀ (fuel : Nat) (l
               · rw [hfN, hfT, g3, List.append_assoc]
                 show _ = full cur ++ (ch.key.take j ++ ch.key.drop j)
                 rw [List.take_append_drop]
-            · refine ⟨_, hlf, ?_, ?_, fun h => by omega⟩
+            · refine ⟨_, hlf, ?_, ?_, fun h => by omega, Nat.le_refl _⟩
               · show (k0 :: kt).drop j ≠ []
                 intro h0
                 have := congrArg List.length h0
@@ -899,7 +1000,7 @@ theorem putL_spec {L : Nat} {E : Enc L} {P : Nat → Prop} : ∀ (fuel : Nat) (l
           have hylt := valid_lt q1
           exact ⟨hlh1 y hylt, fun t => by rw [← hlh1e]; exact look_append hok _ hylt t⟩
         obtain ⟨full', hpp⟩ := put_replace_post (kt := kt) (data := data) hok hclosed hcur hP hk hp h1 h2 m1 hcur1 hTC
-          hxt hfT (by omega) (by
+          hxt hfT (by omega) hbound (Nat.le_refl _) (by
             intro s hs i i'
             obtain ⟨r1, r2⟩ := LA_split_parent (lh' := lh1) (TC := lh.length + 2) (k := k0 :: kt) h1
               (by rw [hjj]; exact hj0) (by rw [hjj]; exact hj1) (by rw [hjj]; exact hj2) hcN (by rw [hjj]) rfl rfl hlf
